@@ -12,6 +12,22 @@
 
 #ifdef INTERROGATE_VERIF_TRACE
 
+// The builder-side events are a channel of their own: they are written only
+// when INTERROGATE_VERIF_TRACE_IDBBUILD is set as well, so that the traces
+// other trace specifications consume do not change.
+namespace verif_idb {
+inline bool build_channel() {
+  static int state = -1;
+  if (state < 0) {
+    const char *v = getenv("INTERROGATE_VERIF_TRACE_IDBBUILD");
+    state = (v != nullptr && v[0] != '\0') ? 1 : 0;
+  }
+  return state == 1;
+}
+}
+#define VERIF_BUILD_EVENT(expr) \
+  do { if (verif_idb::build_channel()) { VERIF_EVENT(expr); } } while (0)
+
 #include "interrogateType.h"
 #include "interrogateFunction.h"
 #include "interrogateFunctionWrapper.h"
@@ -112,6 +128,8 @@ inline std::string make_seq_json(const InterrogateMakeSeq &s) {
 
 } // namespace verif_idb
 
+#else
+#define VERIF_BUILD_EVENT(expr) do { } while (0)
 #endif  // INTERROGATE_VERIF_TRACE
 
 #endif  // VERIF_IDB_JSON_H
